@@ -71,7 +71,10 @@ def do_register(o):
         kwargs["extension_name"] = o["extname"]
     REGS[o["cls"]] = {"props": props, "ver": o["ver"], "class": None, "table": None}
     try:
-        new = decorator(o["kind"], o["ver"])(o["name"], props, **kwargs)(cls)
+        if o.get("call") == "keywords":
+            new = decorator(o["kind"], o["ver"])(type=o["name"], properties=props, **kwargs)(cls)
+        else:
+            new = decorator(o["kind"], o["ver"])(o["name"], props, **kwargs)(cls)
     except Exception as e:  # noqa: BLE001
         return "exc:" + type(e).__name__, None
     REGS[o["cls"]].update({"class": new, "table": table_of(new)})
@@ -174,10 +177,13 @@ def do_op(o):
             return "exc:" + type(e).__name__
         return "none" if c is None else "cls:" + qual(c)
     if k == "parse":
-        return observe_parse(stix2.parse, parse_body(o), allow_custom=o["allow_custom"], version=o.get("version"))
-    if k == "parse_obs":
-        return observe_parse(stix2.parse_observable, parse_body(o), allow_custom=o["allow_custom"],
+        body = parse_body(o)
+        return observe_parse(stix2.parse, json.dumps(body) if o.get("as_text") else body, allow_custom=o["allow_custom"],
                              version=o.get("version"))
+    if k == "parse_obs":
+        body = parse_body(o)
+        return observe_parse(stix2.parse_observable, json.dumps(body) if o.get("as_text") else body,
+                             allow_custom=o["allow_custom"], version=o.get("version"))
     if k == "marking":
         # an undeclared member: whichever marking class is dispatched to refuses it, and is then
         # seen in the traceback (an empty definition would be falsy and fail a later presence check)
@@ -545,9 +551,11 @@ def run_one(case):
 def fresh(case):
     """Run one case in a fresh interpreter (same environment)."""
     limit = case.get("timeout", 120)
+    env = dict(os.environ)
+    env.update(case.get("env") or {})      # another zone / hash seed: the answers must not depend on them
     try:
         p = subprocess.run([sys.executable, "-B", os.path.abspath(__file__), "--one"], input=json.dumps(case),
-                           stdout=subprocess.PIPE, stderr=subprocess.PIPE, text=True, timeout=limit)
+                           stdout=subprocess.PIPE, stderr=subprocess.PIPE, text=True, timeout=limit, env=env)
     except subprocess.TimeoutExpired:
         return {"timeout": limit}
     if p.returncode != 0:
